@@ -271,6 +271,7 @@ pub fn run(ctx: &Ctx) -> Report {
     }
     total.merge(st);
     total.exhaustive_parts.push("every unsupported test, action, format directive (first/middle/last position, after \\c) and the positional option, alone, negated, in dead branches and nested".into());
+    crate::fuzzrun::replay_policy_trees(&mut total, judge);
     // interaction triples: three leaf kinds (supported and unsupported) under every operator skeleton
     let tr = crate::combo::run_triples(ctx.seed, &crate::combo::all_kinds(), ctx.tier.pick(32, 2), judge, case_json);
     total.merge(tr);
